@@ -418,7 +418,7 @@ def oracle_junit(rec, tree):
         fails = [f.text or "" for c in s.iter("testcase") for f in c.iter("failure")] + [f.get("message") or "" for c in s.iter("testcase") for f in c.iter("failure")]
         if not any(e["inner"] in x for x in fails):
             probs.append(("junit:parse-errors", f"error suite does not state {e['inner']!r}"))
-    feats = [f for f in tree["features"] if f["attempts"]]
+    feats = tree["features"]  # a feature whose bracket holds no scenario still is a (empty) suite
     if len(feat_suites) != len(feats):
         probs.append(("junit:suites", f"{len(feat_suites)} feature suites for {len(feats)} features"))
         return probs
